@@ -1,9 +1,10 @@
 (** * HTLC: asset-parameter changes (MsgUpdateParams / Keeper.SetParams)
 
     Keeper.SetParams validates the new parameter set and stores it; nothing else is touched (a supply
-    record for a NEW asset is only created by the next begin blocker).  [set_params] is that effect on
-    the model state.  It is NOT an operation of [step] and is not exercised by the correspondence
-    check: the statements below are about the model only (modelled, not tied).
+    record for a NEW asset is only created by the next begin blocker).  [set_params] (Model.v) is that effect on
+    the model state; the operation [SetParams] of the model applies it when the signer is the authority
+    and the set is valid, and the correspondence check exercises it.  The theorems over histories
+    ([wf_op]) exclude parameter changes; the statements below say what survives one.
 
     - [inv_core_after_param_change]: whatever the new values are, as long as the supported denoms stay
       the same, the parameter-independent clauses survive: escrow = open contracts, the three counters
@@ -15,10 +16,6 @@
       fail — which is why C04 speaks of "while the asset's parameters are unchanged" and why
       [claim_iff_preimage] is stated for histories without parameter changes. *)
 From Irismod Require Import Htlc.Model Htlc.Proofs Htlc.Examples.
-
-Definition set_params (s : state) (P' : list aparam) : state :=
-  mkSt P' (st_contracts s) (st_queue s) (st_bank s) (st_supply s) (st_assets s) (st_prev s)
-       (st_height s) (st_time s) (st_log s) (st_win s).
 
 Definition same_denoms (P P' : list aparam) : Prop :=
   forall d, get_param P d = None <-> get_param P' d = None.
